@@ -395,6 +395,7 @@ func (m *Machine) recvOp(st *State, fr *Frame, x *ssa.UnOp) {
 	m.assumeWellFormed(st, elem, v)
 	ok := m.ctx.Fresh("recvok", BoolSort)
 	st.assume(m.ctx.Implies(m.ctx.Not(ok), m.chanClosed(st, ch)))
+	m.assumeRecvInv(st, elem, v, ok)
 	m.addEvent(st, "recv", []Value{ch}, []Value{v, ok})
 	if x.CommaOk {
 		fr.env[x] = &Tuple{[]Value{v, ok}}
@@ -408,6 +409,7 @@ func (m *Machine) sendStmt(st *State, fr *Frame, x *ssa.Send) {
 	ch := m.val(st, fr, x.Chan).(*Term)
 	v := m.val(st, fr, x.X)
 	m.escapeValue(st, x.X.Type(), v)
+	m.obligeSendInv(st, fr, x, x.X.Type(), v)
 	ord := fmt.Sprint(m.ordinal(fr.fn, x, ""))
 	m.oblige(st, fr, "safe.send", ord, m.ctx.Not(m.chanClosed(st, ch)), m.safeTags(), "send on closed channel")
 	m.timePasses(st)
@@ -452,6 +454,7 @@ func (m *Machine) selectStmt(st *State, fr *Frame, x *ssa.Select) {
 				m.assumeWellFormed(s, elem, v)
 				okv := c.Fresh("selok", BoolSort)
 				s.assume(c.Implies(c.Not(okv), m.chanClosed(s, chans[i])))
+				m.assumeRecvInv(s, elem, v, okv)
 				if m.isDoneChan(chans[i]) {
 					// nothing is ever sent on a context's Done channel: a receive completes only once it is closed
 					s.assume(m.chanClosed(s, chans[i]))
@@ -465,6 +468,7 @@ func (m *Machine) selectStmt(st *State, fr *Frame, x *ssa.Select) {
 		res.Elems = append(res.Elems, ok)
 		res.Elems = append(res.Elems, recvVals...)
 		if k >= 0 && x.States[k].Dir == types.SendOnly {
+			m.obligeSendInv(s, f, x, x.States[k].Send.Type(), sends[k])
 			m.escapeValue(s, x.States[k].Send.Type(), sends[k])
 			s.assume(c.Not(m.chanClosed(s, chans[k])))
 		}
@@ -476,9 +480,9 @@ func (m *Machine) selectStmt(st *State, fr *Frame, x *ssa.Select) {
 				}
 			}
 		}
-		ev := m.addEvent(s, "select", args, []Value{res.Elems[0]})
-		ev.Name = fmt.Sprintf("select")
-		ev.Rets = append(ev.Rets, sends...)
+		// event: Args = channels then send values (nil for receive cases); Rets = (index, ok, received values...)
+		all := append(append([]Value{}, args...), sends...)
+		m.addEvent(s, "select", all, res.Elems)
 		f.env[x] = res
 		m.trace(s, fmt.Sprintf("select#%d=%d", m.ordinal(f.fn, x, ""), k))
 		f.ip++
@@ -692,4 +696,38 @@ func (m *Machine) mapSnapOf(st *State, t types.Type, ref *Term) *MapSnap {
 
 func (m *Machine) isDoneChan(ch *Term) bool {
 	return ch.op == "app" && ch.name == sanitize("ctxDone")
+}
+
+// chanInvOf: declared invariant of channels with this element type ("nonnil", "neverclosed").
+func (m *Machine) chanInvOf(elem types.Type) string {
+	if m.P.Contracts.ChanInv == nil {
+		return ""
+	}
+	return m.P.Contracts.ChanInv[m.ts.typeName(elem)]
+}
+
+func (m *Machine) assumeRecvInv(st *State, elem types.Type, v Value, ok *Term) {
+	inv := m.chanInvOf(elem)
+	if inv == "" {
+		return
+	}
+	m.trusted["channel invariant (rely): values of type "+m.ts.typeName(elem)+" received from channels are "+inv+"; the guarantee side is an obligation at every send/close"] = true
+	if strings.Contains(inv, "neverclosed") {
+		st.assume(ok)
+	}
+	if strings.Contains(inv, "nonnil") {
+		if p, isP := v.(*Ptr); isP {
+			st.assume(m.ctx.Implies(ok, m.ctx.Neq(p.Ref, m.ctx.Int(0))))
+		}
+	}
+}
+
+func (m *Machine) obligeSendInv(st *State, fr *Frame, ins ssa.Instruction, elem types.Type, v Value) {
+	inv := m.chanInvOf(elem)
+	if !strings.Contains(inv, "nonnil") {
+		return
+	}
+	if p, isP := v.(*Ptr); isP {
+		m.oblige(st, fr, "chan.nonnil", fmt.Sprint(m.ordinal(fr.fn, ins, "")), m.ctx.Neq(p.Ref, m.ctx.Int(0)), m.safeTags(), "values sent on channels of "+m.ts.typeName(elem)+" are non-nil (channel invariant)")
+	}
 }
